@@ -93,8 +93,9 @@ class G:
                 lo, hi = v - off(k), v + r.randint(1, 4)
             else:
                 lo, hi = v - r.randint(1, 4), v + off(k)
-        elif u < 0.93:  # narrow on both sides
-            lo, hi = v - off(r.choice([0.01, 0.04, 0.1, 0.5, 1, 1.5, 2])), v + off(r.choice([0.01, 0.04, 0.1, 0.5, 1, 1.5, 2]))
+        elif u < 0.93:  # narrow on both sides (dyadic fractions of the step)
+            nar = [1 / 64, 1 / 32, 1 / 8, 0.5, 1, 1.5, 2]
+            lo, hi = v - off(r.choice(nar)), v + off(r.choice(nar))
         else:           # degenerate
             lo, hi = v, v
         il, ih = int(r.random() < 0.7), int(r.random() < 0.7)
@@ -224,6 +225,13 @@ def gen_case(rng, idx, mode):
                         break
             if v is None:
                 v = g.value()
+                # mostly a value the wrapped function accepts (its own constraint may differ from the caller's)
+                if con0 is not None and not feasible(con0, v) and r.random() < 0.85:
+                    lo0, hi0, _, _ = con0
+                    cand = [v0]
+                    if lo0 is not None and hi0 is not None and lo0 < hi0:
+                        cand.append(lo0 + (hi0 - lo0) * r.choice([0.25, 0.5, 0.75]))
+                    v = r.choice(cand)
                 if con == "new":
                     con = g.interval(v, h)
                 elif con is not None and not feasible(con, v):
